@@ -11,6 +11,11 @@ plan = {"mode": "record"}                                  log operation names
                                                            (half=1: after writing half of that write's bytes)
        {"mode": "line-raise" | "line-kill", "at": k}       the same at the k-th executed line of
                                                            labtech/cache.py / storage.py / serialization.py
+       {"mode": "audit-record" | "audit-kill", "at": k,    the process kills itself just before the k-th *filesystem
+        "order": "asc"|"desc"}                             mutation* of the save (open for writing, unlink, rmdir, mkdir,
+                                                           rename, truncate under the entry's directory: also those made
+                                                           inside library calls such as shutil.rmtree), with directory
+                                                           listings delivered in ascending / descending name order
 """
 from __future__ import annotations
 
@@ -30,6 +35,61 @@ IN_SAVE = 0
 COUNT = 0
 HIT = 0            # number of faults actually injected in this process
 OPLOG: list = []
+
+
+ACOUNT = 0
+ALOG: list = []
+CUR_KEY = ''
+
+
+def _audit(event, args):
+    """sys.addaudithook callback: counts the filesystem mutations made under the entry directory during a save."""
+    global ACOUNT
+    if not IN_SAVE or not CUR_KEY:
+        return
+    if event == 'open':
+        path, _mode, flags = args
+        if not isinstance(flags, int) or not (flags & (os.O_WRONLY | os.O_RDWR | os.O_CREAT | os.O_TRUNC | os.O_APPEND)):
+            return
+        name = 'open'
+    elif event in ('os.remove', 'os.rmdir', 'os.mkdir', 'os.rename', 'os.truncate'):
+        path, name = args[0], event[3:]
+    else:
+        return
+    if not isinstance(path, (str, bytes)):
+        # a path relative to a directory descriptor (shutil.rmtree): the entry name only -- still ours during a save
+        path = str(path)
+    path = os.fsdecode(path)
+    p = plan()
+    if not p or not p['mode'].startswith('audit'):
+        return
+    if CUR_KEY not in path and os.sep in path:
+        return
+    ACOUNT += 1
+    ALOG.append(f'{name}:{os.path.basename(path)}')
+    if p['mode'] == 'audit-kill' and p['at'] == ACOUNT:
+        _die(p.get('sig', 9))
+
+
+sys.addaudithook(_audit)
+
+
+class _OrderedScandir:
+    def __init__(self, it, reverse):
+        self.entries = sorted(it, key=lambda e: e.name, reverse=reverse)
+        it.close()
+
+    def __iter__(self):
+        return iter(self.entries)
+
+    def __enter__(self):
+        return self
+
+    def __exit__(self, *a):
+        return False
+
+    def close(self):
+        pass
 
 
 def plan() -> Optional[dict]:
@@ -186,12 +246,18 @@ class _LineInjector:
 
 def guarded_save(cache_cls, self, storage, task, task_result):
     """Body of SaveCache.save: arm the injection for the duration of the real save."""
-    global IN_SAVE, COUNT
+    global IN_SAVE, COUNT, ACOUNT, CUR_KEY
     p = plan()
     inj = None
     IN_SAVE += 1
     COUNT = 0
+    ACOUNT = 0
     del OPLOG[:]
+    del ALOG[:]
+    CUR_KEY = task.cache_key
+    real_scandir = os.scandir
+    if p and p['mode'].startswith('audit') and p.get('order'):
+        os.scandir = lambda *a, **k: _OrderedScandir(real_scandir(*a, **k), p['order'] == 'desc')
     _verif.emit('save_begin', t=task.tid)
     try:
         if p and p['mode'].startswith('line-'):
@@ -205,6 +271,10 @@ def guarded_save(cache_cls, self, storage, task, task_result):
                 del OPLOG[:]
                 OPLOG.extend(inj.lines)
     finally:
+        os.scandir = real_scandir
+        if p and p['mode'].startswith('audit'):
+            del OPLOG[:]
+            OPLOG.extend(ALOG)
         IN_SAVE -= 1
     _verif.emit('save_end', t=task.tid)
 
